@@ -9,7 +9,7 @@ LEVEL = 'exploration'
 RULE = ('complete matrix: mutating entry point {setitem, append, iterappend (non-empty and empty iterable), truncate, '
         'delete, metadata update / setitem / pop / popitem / del} x {Array, RaggedArray} x how mode r was obtained '
         '{default open, accessmode=r at creation (asarray, create_array, asraggedarray, create_raggedarray), assignment, '
-        'r -> r+ -> r} x state {first axis 0 (1-D, 2-D), non-empty, ragged with 0 subarrays, ragged with only empty '
+        'r -> r+ -> r, after an explicit r+ context on the r handle, after successful use in r+} x state {first axis 0 (1-D, 2-D), non-empty, ragged with 0 subarrays, ragged with only empty '
         'subarrays, ragged non-empty} x {with, without metadata}: the call must raise and leave a byte-identical '
         'directory snapshot; after accessmode = r+ the same call must succeed where valid and show its effect. Every '
         'cell is non-trivial; distinct by cell')
@@ -29,7 +29,8 @@ ARRAY_OPS = ['setitem', 'append', 'iterappend', 'iterappend_empty', 'truncate', 
              'md_pop', 'md_popitem', 'md_del']
 RAGGED_OPS = ['append', 'append_empty', 'iterappend', 'iterappend_empty', 'truncate', 'delete', 'md_update',
               'md_setitem', 'md_pop', 'md_popitem', 'md_del']
-ORIGINS = ['default_open', 'at_creation', 'create_func', 'assigned', 'cycled']
+ORIGINS = ['default_open', 'at_creation', 'create_func', 'assigned', 'cycled', 'after_rplus_context',
+           'after_rplus_use']
 ARRAY_STATES = ['empty1d', 'empty2d', 'nonempty1d', 'nonempty2d']
 RAGGED_STATES = ['nosub', 'onlyempty', 'nonempty', 'nonempty_atom2']
 
@@ -81,6 +82,28 @@ def build(env, d, case):
     elif origin == 'cycled':
         h.accessmode = 'r'
         h.accessmode = 'r+'
+        h.accessmode = 'r'
+    elif origin == 'after_rplus_context':
+        # an explicit r+ context on an r handle is a documented override; once it is left,
+        # the handle must be read-only again
+        h = opener(p)
+        if case['kind'] == 'Array':
+            with h.open_array(accessmode='r+'):
+                if len(h):
+                    h[0] = h[0]
+                else:
+                    h[:] = 0
+        else:
+            with h.open_arrays(accessmode='r+'):
+                pass
+    elif origin == 'after_rplus_use':
+        # successful writes in r+, then the mode is assigned back to r
+        if case['kind'] == 'Array':
+            h[:] = h[:]
+            h.append(h[:0])
+        else:
+            h.iterappend([])
+        h.metadata.update({})
         h.accessmode = 'r'
     return h, p, opener
 
